@@ -107,6 +107,7 @@ func ruleLogger(w *W, fn *ssa.Function, args []Value) Value {
 
 func registerIntrinsics(e *Engine) {
 	registerStd(e)
+	registerStd2(e)
 	registerCrypto(e)
 }
 
@@ -176,11 +177,13 @@ func vpRule(name string) Rule {
 	case "vpReach":
 		return func(w *W, fn *ssa.Function, a []Value) Value {
 			w.reaches = append(w.reaches, w.mustStr(a[0], "label"))
+			w.obsTerms = append(w.obsTerms, nil)
 			return TupleV{}
 		}
 	case "vpObserve":
 		return func(w *W, fn *ssa.Function, a []Value) Value {
-			w.observes = append(w.observes, w.mustStr(a[0], "label"))
+			w.reaches = append(w.reaches, w.mustStr(a[0], "label")+"=")
+			w.obsTerms = append(w.obsTerms, w.C.Resize(w.termOf(a[1]), 64, false))
 			return TupleV{}
 		}
 	case "vpMul128":
